@@ -37,6 +37,8 @@ type DirCase struct {
 	Pattern string     `json:"pattern,omitempty"` // cli-p: glob relative to the directory ("" = *.go)
 	// Unpriv: the CLI runs as an unprivileged user that owns the directory (permission faults become real)
 	Unpriv bool `json:"unpriv,omitempty"`
+	// Sub: name of the directory (below the scratch directory) handed to the tool
+	Sub string `json:"sub,omitempty"`
 }
 
 func (e *DirEntry) content() (string, []Span) {
@@ -166,6 +168,7 @@ func genDirCase(t *rapid.T) *DirCase {
 			}
 		}
 	}
+	c.Sub = genDirName(t, c.Mode == "cli-p")
 	if c.Mode == "cli-p" {
 		c.Pattern = rapid.SampledFrom([]string{"", "", "*", "*.pb.*", "[a-m]*", "*_annotated*", "*.go*", "?*_*"}).Draw(t, "pattern")
 	}
@@ -174,8 +177,15 @@ func genDirCase(t *rapid.T) *DirCase {
 
 // checkDir writes the directory, runs the tool, and checks every entry.
 func checkDir(c *DirCase) (msg string, badBeforeGood bool) {
-	dir := newWorkDir()
-	defer os.RemoveAll(dir)
+	top := newWorkDir()
+	defer os.RemoveAll(top)
+	dir, err := workSub(top, c.Sub)
+	if err != nil {
+		return "harness: " + err.Error(), false
+	}
+	if c.Sub != "" {
+		_ = os.Chmod(top, 0o755) // (an unprivileged run must be able to reach the directory)
+	}
 	type orig struct {
 		path  string
 		text  string
@@ -346,6 +356,9 @@ func TestC19(t *testing.T) {
 		c := genDirCase(t)
 		msg, nt := checkDir(c)
 		ev.Class("mode=" + c.Mode)
+		if c.Sub != "" {
+			ev.Class("directory-name=" + c.Sub)
+		}
 		if c.Unpriv {
 			ev.Class("unprivileged-run:" + unprivHow())
 		}
